@@ -39,5 +39,20 @@ CHECKS = {
               'For every jointly satisfiable pair of return partitions of (encap_preview, encap) and (encap_frag_preview, encap_frag) the results agree (error kind, packet kind, packet length, payload length); previews take no mutable reference and store through none.'),
 }
 
+CHECKS.update({
+    'C01': _c('other', 'DESIGN.md 7/C01', 'sender / receiver layout agreement against one ETSI table, guard equivalence and reject-path infeasibility by linear entailment over abstract-interpretation summaries',
+              'Writer rows (C06 rules on encap), reader windows and metadata provenance of decap_complete, consumed length, infeasibility of every non-environment reject path for well-formed packets with sufficient storage, equivalence of the complete-packet guard with "fits 4095 and the buffer" per label kind with/without substitution, consistency of the label tables. Payload contents are reduced to copy provenance.'),
+    'C02': _c('other', 'DESIGN.md 7/C02', 'per-step summaries of both sides (layout, bookkeeping, formula agreement, reject-path infeasibility); induction over schedules on paper',
+              'Instances of the C06 / C11 / C12.R5 rules for the sender and of the C03 rules for the receiver, plus first-fragment windows / context fields, from_label_reuse = (type is re-use), infeasible reject paths per fragment kind, consumed = G+2. The quantifier over schedules is covered by a paper induction whose step is what is machine-checked.'),
+    'C13': _c('other', 'DESIGN.md 7/C13', 'path summaries vs contract table (Extension::new, H-LEN table), value obligations and must-hold facts at the header call of encap_ext, forced-Unknown scenario of decap',
+              'Claimed in part: constructor contract and no panic, one H-LEN table, lengths and header fields of encap_ext as in C06, only decodable (protocol type, last extension) combinations reach a packet, Unknown mandatory extension drops exactly the packet before any storage is taken, tables of the bundled managers. Equality of the recovered extension list is NOT decided (relational loop invariant out of reach).'),
+    'C16': _c('other', 'DESIGN.md 7/C16', 'absence of poison state: state-dependence (who reads / writes the four fields), memory scenario table, panic and leak prerequisites re-decided',
+              'A history can act on a later transfer only through last_label (read only for re-use labels, cleared by reset) and the memory (scenario table: serves the probe in every state, configuration never written); decap has no reachable panic and no leak. The success of the probe is the composition argument, not a computed fact.'),
+    'C19': _c('other', 'DESIGN.md 7/C19', 'sibling layout agreement: return paths of the peek partitioned by decoded header cell vs the ETSI windows decap uses',
+              'For each of the 15 non-padding header cells the peek returns the fragment id at byte 2, the label built from the window at 4 / 7, Lbl(Broadcast), or ErrLabelReuse; size errors are impossible for buffers as long as the shortest emitted packet of the cell; no reachable panic.'),
+    'C20': _c('other', 'DESIGN.md 7/C20', 'layout agreement of the utils generate / parse functions with the ETSI field table (provenance of written bytes and of parsed fields)',
+              'Every write of the four generate functions and every field returned by the four parse functions is at the offset / with the provenance the table prescribes per label type; generate passes kind constant, label type and gse_len to the shared encoder; parse accepts exactly its own kind.'),
+})
+
 _WIP = 'rule pack under construction in this session; not claimed until its check exists'
 NOT_APPLICABLE = {f"C{i:02d}": _WIP for i in range(1, 21)}
